@@ -115,10 +115,13 @@ Definition setslice_whole_old (i j : Z) (vs : list elt) (s : cst) : cst :=
   {| items := py_setslice i j vs (items s); rec := rec s ++ make_set_keep [] vs |}.
 End OldSliceRecording.
 
-(* ---- a write path OUTSIDE the proved fragment (known finding C16-d) ------------------------------------------ *)
-(* K_ctor_alias:  q = C(f = p.f).  q's attribute is not monitored yet, so __set__ calls _ensure_monitored_type(value), which
-   returns the value itself when it already is a monitored container: p and q now hold ONE container.  It is cleared and
-   re-filled with owner q; afterwards whoever reads the field last is the owner that records. *)
+(* ---- a constructor handed ANOTHER object's managed container:  q = C(f = p.f) ------------------------------------
+   _ensure_monitored_type copies a container that is monitored for another owner like any other collection (6f674bd): q gets its
+   own container filled from p's contents, p's container is untouched. *)
+Definition ctor_copy (p : cst) : cst := init KList (items p).
+
+(* before 6f674bd an already monitored value was adopted as is: p and q held ONE container; it was cleared and re-filled with
+   owner q, and whoever read the field last was the owner that recorded (regression lemma old_ctor_alias_unrecorded) *)
 Record cst2 := { shared : list elt; recp : list elt; recq : list elt }.
 Definition ctor_alias (s : cst) : cst2 := {| shared := items s; recp := rec s; recq := items s |}.
 Definition append_q (x : elt) (t : cst2) : cst2 := {| shared := shared t ++ [x]; recp := recp t; recq := recq t ++ [x] |}.
@@ -126,5 +129,8 @@ Definition append_q (x : elt) (t : cst2) : cst2 := {| shared := shared t ++ [x];
 From Krrood Require Import Base.Sx.
 Definition model_out (k : kind) (ops : list op) (vs0 : list elt) : sx :=
   let '(tr, fin) := run k ops (init k vs0) in SL [trace_sx tr; elts_sx (rec fin)].
-Definition ctor_alias_out (vs0 : list elt) (x : elt) : sx :=
-  let t := append_q x (ctor_alias (init KList vs0)) in SL [elts_sx (shared t); elts_sx (recp t); elts_sx (recq t)].
+(* q = C(f = p.f); q.f.append(x):  p's contents and record, q's contents and record *)
+Definition ctor_copy_out (vs0 : list elt) (x : elt) : sx :=
+  let p := init KList vs0 in
+  let q := add_item KList (ctor_copy p) x in
+  SL [elts_sx (items p); elts_sx (rec p); elts_sx (items q); elts_sx (rec q)].
